@@ -124,6 +124,24 @@ def _declared_dimension_ops(ctx, rng):
     return ops
 
 
+def _reciprocal_ops(ctx, rng):
+    """number / quantity for EVERY unit of a type whose reciprocal dimension is a
+    declared type (Duration -> Frequency): the unit's own reciprocal need not
+    be a declared unit (1 / (2 min) = 1/120 Hz)"""
+    ops = []
+    for c, v in ctx.classes.items():
+        rd = _qty.dim_pow(v["dim"], -1)
+        if ctx.class_with_dim(rd) is None or v["ref"] is None:
+            continue
+        for u in ctx.linear_units(c):
+            if ctx.quantum(u) is not None:
+                continue
+            a = _qty.tok(rng, Fraction(rng.randint(1, 60), rng.choice([1, 2, 3])))
+            k = _qty.kind_tok(rng, rng.choice([Fraction(1), Fraction(5, 2), Fraction(-7, 3), Fraction(12)]))
+            ops.append(["q_num", "rdiv", f"{a}@{u}", k, MODE])
+    return ops
+
+
 def gen_cases(rng, tier):
     n_user = 40 if tier == "thorough" else 12
     n_pre = 6 if tier == "thorough" else 2
@@ -132,7 +150,8 @@ def gen_cases(rng, tier):
     for _ in range(n_pre):
         ctx = _qty.predefined_ctx()
         cases.append(_qty.case_of(ctx, _ops_for(ctx, rng, per) +
-                                  _quantised_result_ops(ctx, rng, per // 2), ["random"]))
+                                  _quantised_result_ops(ctx, rng, per // 2) +
+                                  _reciprocal_ops(ctx, rng), ["random"]))
     # declaration histories with operations attempted BEFORE their result type
     # exists and repeated after it has been declared (the oracle of C17)
     from props import C17
@@ -141,8 +160,8 @@ def gen_cases(rng, tier):
         cases.append(c)
     for _ in range(n_user):
         ctx = _qty.user_ctx(rng, rng.randint(10, 20))
-        cases.append(_qty.case_of(ctx, _ops_for(ctx, rng, per) + _declared_dimension_ops(ctx, rng),
-                                  ["random"]))
+        cases.append(_qty.case_of(ctx, _ops_for(ctx, rng, per) + _declared_dimension_ops(ctx, rng) +
+                                  _reciprocal_ops(ctx, rng), ["random"]))
     # all pairs of predefined units (thorough), a rotating block (quick)
     ctx = _qty.predefined_ctx()
     allu = [u for u in ctx.units if ctx.units[u]["scale"] is not None]
